@@ -7,7 +7,7 @@ TUS = ['search']
 CTOR = '_ZN6engine6SearchC2ERKNS_8PositionERKNS_6LimitsERNS_14PositionScorerERNS_7HashMapImNS_2tt7TTEntryELm4194304EEE'
 GO = '_ZN6engine6Search2goEv'; STOP = '_ZN6engine6Search4stopEv'
 SEARCH = '_ZN6engine6Search6searchERNS_8PositionEillPNS_4InfoE'
-STUBS = [SEARCH, '_ZNSt5arrayIN6engine4InfoELm80EEC2Ev', '_ZN6engine6Search11init_searchEv', '_ZN6engine6Search10print_infoElilPNS_4InfoE', '_ZNK6engine8Position3uciB5cxx11Ej',
+STUBS = [SEARCH, '_ZN6engine6Search11init_searchEv', '_ZN6engine6Search10print_infoElilPNS_4InfoE', '_ZNK6engine8Position3uciB5cxx11Ej',
          '_ZN6engine14generate_movesERKNS_8PositionENS_5ColorEPj', '_ZN6engine11TimeManager13calculateTimeERKNS_6LimitsENS_5ColorEi',
          '_ZNSt7__cxx1112basic_stringIcSt11char_traitsIcESaIcEED2Ev']
 INS_C = '_ZNSt6vectorIjSaIjEE6insertIPKjvEEN9__gnu_cxx17__normal_iteratorIPjS1_EENS6_IS4_S1_EET_SA_'
@@ -65,7 +65,9 @@ def build(ctx, defines, extra_stubs=()):
     fm = layout.field_header(ctx, m, [SEARCH_F, INFO_F, LIM_F], ['search.h'])
     shrink_tables(ctx, m, fm)
     dc = [f[1:] for f in m.funcs if '__duration_cast_impl' in f and not m.funcs[f].decl]
-    c, h, info = ctx.translate(m, [CTOR, GO, STOP, '_ZN6engine6Search12check_limitsEv'], stubs=STUBS + [INS_C, INS_M] + dc + list(extra_stubs),
+    actor = [f[1:] for f in m.funcs if re.match(r'@_ZNSt5arrayIN6engine4InfoELm\d+EEC2Ev$', f)]
+    if len(actor) != 1: raise Broken('constructor of std::array<Info, N> not found uniquely: %s' % actor)
+    c, h, info = ctx.translate(m, [CTOR, GO, STOP, '_ZN6engine6Search12check_limitsEv'], stubs=STUBS + actor + [INS_C, INS_M] + dc + list(extra_stubs),
                                opt_stubs=['_ZN6engine11MoveOrdererC1E', '_ZNSolsEPFRSoS_E', '_ZdlPv'])
     header = open(h).read()
     st = m.types['%"class.engine::Search"']
@@ -83,7 +85,7 @@ def build(ctx, defines, extra_stubs=()):
     glue = [proto_stub(header, INS_C, 'return do_insert(v_2, v_3);'), proto_stub(header, INS_M, 'return do_insert(v_2, v_3);')]
     mo = [f[1:] for f in m.funcs if f.startswith('@_ZN6engine11MoveOrdererC1E')]
     for f in mo: glue.append(proto_stub(header, f, ''))
-    glue.append(proto_stub(header, '_ZNSt5arrayIN6engine4InfoELm80EEC2Ev', ''))
+    glue.append(proto_stub(header, actor[0], ''))
     # std::chrono::duration_cast<milliseconds>(nanoseconds): library code (a 64-bit division by 10^6); contract: some value in [0, ns] for ns >= 0
     for f in dc: glue.append(proto_stub(header, f, 'int64_t ns = (int64_t)(*v_0).f0; int64_t ms = nondet_i64(); if (ns >= 0) __CPROVER_assume(ms >= 0 && ms <= ns); else __CPROVER_assume(ms <= 0 && ms >= ns); return (uint64_t)ms;'))
     if '_ZNSolsEPFRSoS_E' in header: glue.append(proto_stub(header, '_ZNSolsEPFRSoS_E', 'return v_0;'))
@@ -101,7 +103,7 @@ def unwindset(dmax, research):
             '_ZN6engine14generate_movesERKNS_8PositionENS_5ColorEPj.0': 5, '_ZN6engine14generate_movesERKNS_8PositionENS_5ColorEPj.1': 5}
 
 
-EXTRA = ['--object-bits', '12']
+EXTRA = []
 ASSUME = ['Search::search is replaced by its contract (polls stop flag and limits at entry as the real code does; may be interrupted; otherwise leaves a PV whose first move is a root move and '
           'returns a value in [-VALUE_MATE, VALUE_MATE]) -- the contract is what the one-node Level B queries establish',
           'root move list: 1..4 arbitrary distinct moves (generate_moves stubbed; legality is C01) or the given searchmoves',
